@@ -3,6 +3,8 @@ package orch
 import (
 	"encoding/json"
 	"fmt"
+	osexec "os/exec"
+	"path/filepath"
 	"time"
 
 	"verifsim/gen"
@@ -60,9 +62,9 @@ func genC05(seed uint64, i int, exhaustive bool) *world.Case {
 		return x
 	}
 	var last int
-	ops := []string{"reshard", "reduce", "cogroup", "reshuffle", "fold", "shared", "cogroup", "reduce"}
+	ops := []string{"reshard", "reduce", "cogroup", "reshuffle", "fold", "shared", "cogroup", "reused"}
 	op := ops[k%len(ops)]
-	if op == "shared" && kind == "kkv2" {
+	if (op == "shared" || op == "reused") && kind == "kkv2" {
 		op = "reshuffle"
 	}
 	if op == "fold" && !(kt == "int" || kt == "int64" || kt == "string") || (op == "fold" && kind == "kkv2") {
@@ -90,6 +92,13 @@ func genC05(seed uint64, i int, exhaustive bool) *world.Case {
 		b = add(spec.Node{Op: "writerfunc", In: []int{b}})
 		last = add(spec.Node{Op: "cogroup", In: []int{b, a}})
 		last = add(spec.Node{Op: "map", Fn: "cgflat", In: []int{last}})
+	case "reused":
+		// A Result keyed by two columns, consumed by a later invocation through a
+		// ONE-column view and redistributed: rows must be placed by the view's key.
+		x := src(S)
+		x = add(spec.Node{Op: "map", Fn: "widen", M: r.Pick(2, 3), In: []int{x}})
+		x = add(spec.Node{Op: "prefixed", M: 2, In: []int{x}})
+		last = add(spec.Node{Op: "reduce", Fn: "sum", In: []int{x}})
 	case "cogroup":
 		a := src(S)
 		if P > S {
@@ -111,6 +120,25 @@ func genC05(seed uint64, i int, exhaustive bool) *world.Case {
 		cfg.Chunk = 2
 	}
 	c := runScanCase("C05", s, sp, cfg)
+	if op == "reused" {
+		ts, _ := sp.Types()
+		t := ts[sp.Root()]
+		cons := &spec.Spec{Tag: "b", Nodes: []spec.Node{{Op: "arg", T: &t}, {Op: "prefixed", M: 1, In: []int{0}}}}
+		if r.Chance(0.5) {
+			cons.Nodes = append(cons.Nodes, spec.Node{Op: "reshuffle", In: []int{1}})
+		} else {
+			cons.Nodes = append(cons.Nodes, spec.Node{Op: "fold", Fn: "cnt", In: []int{1}})
+		}
+		cons.Nodes = append(cons.Nodes, spec.Node{Op: "writerfunc", In: []int{2}})
+		if _, err := cons.Types(); err != nil {
+			panic(fmt.Sprintf("C05 generator (reused): %v", err))
+		}
+		c.Script = []world.Step{
+			{Op: "run", ID: "r1", Func: "prog0", Spec: sp, MustSucceed: true},
+			{Op: "run", ID: "r2", Func: "prog1", Spec: cons, Args: []string{"r1"}, MustSucceed: true},
+			{Op: "scan", Of: "r2", MustSucceed: true},
+		}
+	}
 	c.Oracle.Placement = true
 	c.Oracle.Counters = false
 	return c
@@ -139,7 +167,7 @@ func C05(tier string, seed uint64) int {
 	base := groups * c05K
 	b := &Batch{
 		Property: "C05", Tier: tier, Seed: seed, Level: "exploration",
-		Rule: fmt.Sprintf("groups of %d simulated runs (separate OS processes) share a key type (all registered kinds incl. a 2-column prefix) and a consumer shard count and differ in redistributing operator (reshard/reshuffle/reduce/fold/cogroup), producer shard count, producer kind, row count, vector size, executor, cluster shape, delay and runtime seeds; a WriterFunc directly after the operator records (shard,key); oracles: (a) no key in two shards within a run, (b) the key->shard tables of all runs of a group agree, (c) Repartition places rows where its function said (observer oracle), (d) aggregations emit each key once (rows vs reference); thorough adds exhaustive 8- and 16-bit key ranges; distinct = distinct (ordered seam-event sequence, result digest)", c05K),
+		Rule: fmt.Sprintf("groups of %d simulated runs (separate OS processes) share a key type (all registered kinds incl. a 2-column prefix) and a consumer shard count and differ in redistributing operator (reshard/reshuffle/reduce/fold/cogroup; one member redistributes the two-column-keyed Result of an earlier invocation through a one-column view), producer shard count, producer kind, row count, vector size, executor, cluster shape, delay and runtime seeds; a WriterFunc directly after the operator records (shard,key); oracles: (a) no key in two shards within a run, (b) the key->shard tables of all runs of a group agree, (c) Repartition places rows where its function said (observer oracle), (d) aggregations emit each key once (rows vs reference); thorough adds exhaustive 8- and 16-bit key ranges and re-runs half of the local-executor members (parallelism >= 2) under the race detector (a report with frames in /repo is a violation); distinct = distinct (ordered seam-event sequence, result digest)", c05K),
 		Gen: func(i int) *world.Case {
 			if i >= base {
 				// exhaustive ranges: uint8 and uint16 groups
@@ -174,6 +202,35 @@ func C05(tier string, seed uint64) int {
 			}
 			return "", "", 0
 		},
+	}
+	if tier != "quick" {
+		// Tasks of one operator running side by side in one process must not share
+		// partitioner state: the thorough tier re-runs the local-executor members
+		// with parallelism >= 2 under the race detector (GOMAXPROCS=1 hides such a
+		// race from the rows; the detector sees it from the happens-before order).
+		out, err := osexec.Command(filepath.Join(Verif, "bin", "build.sh"), "race").CombinedOutput()
+		if err != nil {
+			fmt.Printf("verif: building the race binary failed: %v\n%s\n", err, out)
+			return 2
+		}
+		gen0 := b.Gen
+		b.Gen = func(i int) *world.Case {
+			c := gen0(i)
+			if c != nil && i < base && c.Config.Executor == "local" && (i%c05K == 5 || i%2 == 0) {
+				// (member 5 is the one with a Repartition.) Tasks must overlap:
+				// user functions take simulated time.
+				c.Config.Race = true
+				c.Config.UserDelays = true
+				if c.Config.DelayProfile == "none" || c.Config.DelayProfile == "" {
+					c.Config.DelayProfile = "mixed"
+				}
+				if c.Config.Parallelism < 2 {
+					c.Config.Parallelism = 4
+				}
+			}
+			return c
+		}
+		b.Judge = raceJudge
 	}
 	return b.Run()
 }
